@@ -124,8 +124,14 @@ JPyRepr(w, dotzero) ==
 
 \* is the number held as a host float ("f") or a host integer ("i") inside the engine?
 \* parsed numbers carry it; operands of a case follow the case's flag ir (DESIGN: intrep)
+\* (the driver builds a host integer for every integer-valued operand with |x| <= 2^53 when ir is set, -0 excepted)
+JHostIntable(w) == /\ w # WNegZero
+                   /\ \/ WIsSmallInt(w)
+                      \/ /\ WExp(w) # 2047
+                         /\ (WExp(w) - 1023 < 53 \/ (WExp(w) - 1023 = 53 /\ WFracZero(w)))
+                         /\ DIsInteger(DFromW(w))
 JNumRep(v, ir) == IF "r" \in DOMAIN v THEN v.r
-                  ELSE IF ir /\ WIsSmallInt(v.w) /\ v.w # WNegZero THEN "i" ELSE "f"
+                  ELSE IF ir /\ JHostIntable(v.w) THEN "i" ELSE "f"
 
 \* ---- JParse: recursive descent over code units ------------------------------------------------
 JFail == [ok |-> FALSE, v |-> Undef, p |-> 0]
